@@ -855,6 +855,117 @@ def rule_truncation(chk, mod):
             chk.ok("truncation", inst)
 
 
+
+# ----------------------------------------------------------------------------
+# owner lookup: atom a owns the half-open block ga_loc[a] <= g < ga_loc[a+1]
+# ----------------------------------------------------------------------------
+def _resolve_local(fn, e, depth=4):
+    e = strip_layout(e)
+    while isinstance(e, ast.Name) and depth > 0:
+        ds = local_defs(fn, e.id)
+        if len(ds) != 1:
+            break
+        e = strip_layout(ds[0])
+        depth -= 1
+    return e
+
+
+def _kw(call, name, pos=None):
+    for k in call.keywords:
+        if k.arg == name:
+            return k.value
+    if pos is not None and len(call.args) > pos:
+        return call.args[pos]
+    return None
+
+
+def rule_owner_map(chk, imod):
+    fn = imod.func("AtomicGridsIndexer.set_idx")
+    init = imod.func("AtomicGridsIndexer.__init__")
+    where = "AtomicGridsIndexer.set_idx"
+    # the block table: self.ga_loc = self.rad_loc[self.ra_loc]  (natm + 1 offsets: starts of the atoms + total)
+    gdef = [x for x in pf.walk_no_nested(init) if isinstance(x, ast.Assign) and pf.is_self_attr(x.targets[0], "ga_loc")]
+    if len(gdef) != 1:
+        raise core.AnalysisError("AtomicGridsIndexer.__init__ no longer defines self.ga_loc once")
+    LOC = "self.ga_loc"
+    asg = [x for x in pf.walk_no_nested(fn) if isinstance(x, ast.Assign) and pf.is_self_attr(x.targets[0], "iatom_list")]
+    if len(asg) != 1:
+        raise core.AnalysisError("set_idx no longer assigns self.iatom_list exactly once")
+    e = _resolve_local(fn, asg[0].value)
+    inst = "%s: iatom_list[i] is the atom a with ga_loc[a] <= idx_map[i] < ga_loc[a+1]" % where
+    minus1 = False
+    if isinstance(e, ast.BinOp) and isinstance(e.op, ast.Sub) and isinstance(e.right, ast.Constant) and e.right.value == 1:
+        minus1, e = True, _resolve_local(fn, e.left)
+
+    def bad(msg, node=None):
+        node = node or asg[0]
+        chk.violation("owner-map", GI, where, pf.src(node)[:110], node.lineno, msg, instance=inst)
+
+    if isinstance(e, ast.Call) and (pf.call_name(e) or "").split(".")[-1] in ("searchsorted", "digitize"):
+        kind = pf.call_name(e).split(".")[-1]
+        if kind == "searchsorted":
+            hay, side = strip_layout(e.args[0]) if e.args else None, _kw(e, "side", 2)
+            sidev = side.value if isinstance(side, ast.Constant) else ("left" if side is None else None)
+            right = sidev == "right"
+        else:
+            hay = strip_layout(_kw(e, "bins", 1))
+            r = _kw(e, "right", 2)
+            right = not (isinstance(r, ast.Constant) and r.value is True)  # digitize default: bins[i-1] <= x < bins[i]
+            sidev = "right" if right else "left"
+        h = pf.src(hay) if hay is not None else ""
+        if h == LOC + "[1:]" or h == LOC + "[1:-1]":
+            need_minus = False
+        elif h in (LOC, LOC + "[:-1]"):
+            need_minus = True
+        else:
+            raise core.AnalysisError("%s: bisection over %s, not over the atom block table %s" % (where, h, LOC))
+        if not right:
+            bad("the owner of grid point g is the number of block boundaries <= g (half-open blocks ga_loc[a] <= g < "
+                "ga_loc[a+1]); %s(..., side=%r) counts the boundaries < g, so the first point of every atom block "
+                "is attributed to the previous atom" % (kind, sidev), e)
+        elif need_minus != minus1:
+            bad("bisection over %s %s a `- 1`: the result is off by one atom for every point" % (
+                h, "needs" if need_minus else "must not be followed by"), e)
+        else:
+            chk.ok("owner-map", inst + " (%s over %s, side='right')" % (kind, h))
+        return
+    base = _resolve_local(fn, e.value) if isinstance(e, ast.Subscript) else None
+    if isinstance(base, ast.Call) and (pf.call_name(base) or "").endswith("repeat"):
+        c = base
+        reps = _kw(c, "repeats", 1)
+        if reps is not None and pf.src(reps) in ("np.diff(%s)" % LOC, "%s[1:] - %s[:-1]" % (LOC, LOC)) \
+                and "arange" in pf.src(c.args[0]):
+            chk.ok("owner-map", inst + " (np.repeat over block sizes)")
+            return
+        raise core.AnalysisError("%s: np.repeat form not recognised: %s" % (where, pf.src(c)[:80]))
+    if isinstance(e, ast.Subscript) and isinstance(e.value, ast.Name) and not minus1:
+        tname = e.value.id
+        fills = []
+        for lp in pf.walk_no_nested(fn):
+            if isinstance(lp, ast.For) and isinstance(lp.target, ast.Name):
+                for st in lp.body:
+                    if isinstance(st, ast.Assign) and isinstance(st.targets[0], ast.Subscript) \
+                            and isinstance(st.targets[0].value, ast.Name) and st.targets[0].value.id == tname:
+                        fills.append((lp, st))
+        if len(fills) != 1:
+            raise core.AnalysisError("%s: owner table %s is not filled by exactly one per-atom loop" % (where, tname))
+        lp, st = fills[0]
+        a = lp.target.id
+        sl = st.targets[0].slice
+        okf = (isinstance(sl, ast.Slice) and sl.step is None and sl.lower is not None and sl.upper is not None
+               and pf.src(sl.lower) == "%s[%s]" % (LOC, a) and pf.src(sl.upper) in ("%s[%s + 1]" % (LOC, a), "%s[1 + %s]" % (LOC, a))
+               and pf.src(st.value) == a)
+        okr = pf.src(lp.iter) in ("range(self.natm)", "range(len(%s) - 1)" % LOC, "range(%s.size - 1)" % LOC)
+        idx_ok = pf.src(e.slice) in ("self.idx_map", "idx") or pf.src(_resolve_local(fn, e.slice)) in ("self.idx_map", "idx")
+        if okf and okr and idx_ok:
+            chk.ok("owner-map", inst + " (per-atom fill of %s[ga_loc[a]:ga_loc[a+1]] = a, read at idx_map)" % tname)
+        else:
+            bad("the per-atom fill `%s` in `for %s in %s` read at [%s] does not assign atom a to exactly the half-open "
+                "block ga_loc[a]:ga_loc[a+1] of every atom" % (pf.src(st), a, pf.src(lp.iter), pf.src(e.slice)), st)
+        return
+    raise core.AnalysisError("%s: the computation of iatom_list (%s) has a shape the owner rule does not know"
+                             % (where, pf.src(asg[0].value)[:80]))
+
 # ----------------------------------------------------------------------------
 def _analyse_own(chk):
     prog = pf.Program(chk.tree, [GG, GI])
@@ -869,6 +980,9 @@ def _analyse_own(chk):
     chk.guard(rule_protocol, mod)
     chk.guard(rule_width, mod, imod)
     chk.guard(rule_truncation, mod)
+    chk.rule("owner-map", "iatom_list assigns each point to the atom whose half-open block [ga_loc[a], ga_loc[a+1]) contains it")
+    chk.guard(rule_owner_map, imod)
+    chk.floor("owner-map", 1, "AtomicGridsIndexer.set_idx")
     # consumer side of the protocol: set_idx needs all_weights, set_padding stores its argument
     def _consumer(c):
         si = imod.func("AtomicGridsIndexer.set_idx")
@@ -955,6 +1069,18 @@ def mutants(tree):
         Mutant("level not forwarded", GG, r"(mol, atom_grid, (?:self\.)?radi_method,) level, prune,",
                r"\1 self.level, prune,", regex=True, expect="param-forward"),
         Mutant("full_lmax binding dropped", GG, " full_lmax=self.lmax,", "", expect="width-binding"),
+        Mutant("owner lookup by searchsorted with the default side", GI,
+               "        tmp = np.arange(self.all_weights.size)\n        for a in range(self.natm):\n            tmp[self.ga_loc[a] : self.ga_loc[a + 1]] = a\n        self.iatom_list = np.asarray(tmp[self.idx_map], order=\"C\", dtype=np.int32)",
+               "        iatom = np.searchsorted(self.ga_loc[1:], self.idx_map)\n        self.iatom_list = np.asarray(iatom, order=\"C\", dtype=np.int32)",
+               expect="owner-map"),
+        Mutant("owner lookup over starts without -1", GI,
+               "        tmp = np.arange(self.all_weights.size)\n        for a in range(self.natm):\n            tmp[self.ga_loc[a] : self.ga_loc[a + 1]] = a\n        self.iatom_list = np.asarray(tmp[self.idx_map], order=\"C\", dtype=np.int32)",
+               "        iatom = np.searchsorted(self.ga_loc, self.idx_map, side=\"right\")\n        self.iatom_list = np.asarray(iatom, order=\"C\", dtype=np.int32)",
+               expect="owner-map"),
+        Mutant("per-atom fill shifted by one", GI, "tmp[self.ga_loc[a] : self.ga_loc[a + 1]] = a",
+               "tmp[self.ga_loc[a] + 1 : self.ga_loc[a + 1] + 1] = a", expect="owner-map"),
+        Mutant("per-atom fill skips the last atom", GI, "        for a in range(self.natm):\n            tmp[self.ga_loc[a]",
+               "        for a in range(self.natm - 1):\n            tmp[self.ga_loc[a]", expect="owner-map"),
         Mutant("truncation removed", GG, "                ylm[:, nlm_shl:] = 0.0\n", "", expect="truncation"),
         Mutant("truncation keeps the wrong side", GG, "ylm[:, nlm_shl:] = 0.0", "ylm[:, :nlm_shl] = 0.0",
                expect="truncation"),
